@@ -50,7 +50,7 @@ def dealWithNumbers (T : Tables) (s : Sc) : Sc × Bytes × PF :=
       if isDigitCh s1.ch then
         let (_, s2) := scan T s1
         (s2, tt ++ [46] ++ s2.tok)
-      else (s1, tt)
+      else (s1, tt ++ [46])
     else (s, tt)
   (s, tt, parseFloat tt)
 
@@ -154,7 +154,8 @@ def parseFunc (T : Tables) : Nat → Sc → PR PathPart
     let inv := !(knownFuncs.map str).contains name
     let (r1, s1) := scan T s   -- the '(' token
     let us := name ++ (match r1 with | .rune c => (String.singleton (Char.ofNat c)).toUTF8.toList | _ => [])
-    funcLoop T fuel inv name [] us r1 s1
+    let (r2, s2) := scan T s1  -- the first token of the argument list
+    funcLoop T fuel inv name [] us r2 s2
 
 def funcLoop (T : Tables) : Nat → Bool → Bytes → List Param → Bytes → TokKind → Sc → PR PathPart
   | 0, _, _, _, _, _, _ => .fuel
@@ -177,7 +178,7 @@ def funcLoop (T : Tables) : Nat → Bool → Bytes → List Param → Bytes → 
         match parseLogic T fuel false r s with
         | .ok l r1 s1 => funcLoop T fuel inv name (.logic l :: ps) (us ++ l.us) r1 s1
         | .err => .err | .panic => .panic | .fuel => .fuel
-      else next ps us s
+      else next ps (us ++ s.tok) s
     | .str | .raw | .chr =>
       let tt := s.tok
       next (.str (unescape (stripQuotes tt)) :: ps) (us ++ tt) s
@@ -190,8 +191,8 @@ def funcLoop (T : Tables) : Nat → Bool → Bytes → List Param → Bytes → 
         match pf with
         | .syntaxErr => .err
         | .rangeErr => .err
-        | .nan => .panic
-        | .inf _ => .panic
+        | .nan => .err
+        | .inf _ => .err
         | .fin neg m e =>
           let (c, x) := decOfFloat neg m e
           next (.num ⟨c, x⟩ :: ps) (us ++ piece) s1
@@ -208,9 +209,9 @@ def topLoop (T : Tables) : Nat → Option TopOp → TokKind → Sc → ParseResu
   | 0, _, _, _ => .fuel
   | fuel+1, top, r, s =>
     match r with
-    | .eof => match top with | some t => .op t | none => .neither
+    | .eof => match top with | some t => .op t | none => .err
     | .rune c =>
-      if c == 0 then (match top with | some t => .op t | none => .neither)
+      if c == 0 then (match top with | some t => .op t | none => .err)
       else if c == 123 then
         if top.isSome then .err else
         match parseLogic T (2 * s.rest.length + 16) false r s with
